@@ -457,6 +457,20 @@ void sleep_ms(uint64_t ms) {
 	block_until(ready, dl, "sleep", nullptr);
 }
 
+bool others_quiescent(uint64_t horizon_ns) {
+	Task* me = tl_cur;
+	for (Task* t : S.tasks) {
+		if (t == me || t->st == Task::FINISHED || t->what == std::string("settle") || t->what == std::string("drain")) continue;
+		if (is_ready(t)) return false;
+		// a task that wakes up by itself within the horizon (timed wait, sleep, poll pause) is not quiescent
+		if (horizon_ns && t->st == Task::BLOCKED && t->deadline) {
+			uint64_t d = (*t->deadline)();
+			if (d != UINT64_MAX && d <= S.now + horizon_ns) return false;
+		}
+	}
+	return true;
+}
+
 void settle() {
 	if (!in_sim()) return;
 	Task* me = tl_cur;
